@@ -7,6 +7,7 @@ import SqlcModel.Driver.C04
 import SqlcModel.Driver.C11
 import SqlcModel.Driver.C12
 import SqlcModel.Driver.C03
+import SqlcModel.Driver.L2Props
 open Lean Sqlc.Drv
 
 def dispatch (prop kind : String) (inp impl : Json) : Verdict :=
@@ -19,6 +20,11 @@ def dispatch (prop kind : String) (inp impl : Json) : Verdict :=
   | "C11" => c11 kind inp impl
   | "C12" => c12 kind inp impl
   | "C03" => c03 kind inp impl
+  | "C02" => c02 kind inp impl
+  | "C05" => c05 kind inp impl
+  | "C06" => c06 kind inp impl
+  | "C07" => c07 kind inp impl
+  | "C10" => c10 kind inp impl
   | _ => { compare := false, frag := "no-model" }
 
 partial def loop (prop : String) (h : IO.FS.Stream) (out : IO.FS.Stream) : IO Unit := do
